@@ -7,6 +7,7 @@
 #include "vf_main.hpp"
 
 #include <Eigen/Dense>
+#include <algorithm>
 #include <fstream>
 #include "romea_core_common/transform/estimation/FindRigidTransformationByICP.hpp"
 #include "romea_core_common/transform/estimation/RansacRigidTransformationModel.hpp"
@@ -36,7 +37,7 @@ const std::vector<std::array<double, 2>> & referenceScan()
 bool inK3Region(double tx, double ty, double th) {return tx >= 0.17 && ty >= 0.17 && th >= 0.044;}
 
 template<class PT>
-bool runIcp(double tx, double ty, double th, Eigen::Matrix3d & est, bool & found, bool kdTreeOverload = false)
+bool runIcp(double tx, double ty, double th, Eigen::Matrix3d & est, bool & found, bool kdTreeOverload = false, int targetOrder = 0)
 {
   PointSet<PT> src, tgt;
   Eigen::Affine2d T = Eigen::Translation2d(tx, ty) * Eigen::Rotation2Dd(th);
@@ -50,6 +51,12 @@ bool runIcp(double tx, double ty, double th, Eigen::Matrix3d & est, bool & found
     t[0] = q[0]; t[1] = q[1];
     if (PointTraits<PT>::SIZE == 3) {t[2] = 1;}
     tgt.push_back(t);
+  }
+  if (targetOrder == 1) {
+    std::reverse(tgt.begin(), tgt.end());            // the displaced scan listed in the opposite sweep direction
+  } else if (targetOrder == 2) {
+    vf::Rng shuffle(0xC06ULL);                        // ... or in an arbitrary order (a point set has no order)
+    for (size_t k = tgt.size() - 1; k > 0; --k) {std::swap(tgt[k], tgt[shuffle.below(k + 1)]);}
   }
   FindRigidTransformationByICP<PT> icp(0.2);
   if (kdTreeOverload) {
@@ -91,6 +98,8 @@ void icpBody(vf::Ctx & c)
   c.nontrivial(std::hypot(tx, ty) > 0.02 || std::fabs(th) > 0.005);
   bool treeOverload = c.s.flag("kdtree_overload", 1, 3);
   if (treeOverload) {c.label("find-overload-with-caller-built-kd-trees");}
+  int targetOrder = static_cast<int>(c.s.pick("target_point_order", {4, 1, 1}));
+  if (targetOrder != 0) {c.label("target-scan-stored-in-another-point-order");}
   c.commit();
   if (inK3Region(tx, ty, th)) {
     c.label("excluded-known-K3-region");
@@ -98,7 +107,7 @@ void icpBody(vf::Ctx & c)
   }
   Eigen::Matrix3d est;
   bool found;
-  if (homogeneous) {runIcp<HomogeneousCoordinates2d>(tx, ty, th, est, found, treeOverload);} else {runIcp<Eigen::Vector2d>(tx, ty, th, est, found, treeOverload);}
+  if (homogeneous) {runIcp<HomogeneousCoordinates2d>(tx, ty, th, est, found, treeOverload, targetOrder);} else {runIcp<Eigen::Vector2d>(tx, ty, th, est, found, treeOverload, targetOrder);}
   Eigen::Matrix3d truth = (Eigen::Translation2d(tx, ty) * Eigen::Rotation2Dd(th)).matrix();
   double err = (est - truth).norm();
   c.maxStat("icp-frobenius-error", found ? err : 1e9);
@@ -124,7 +133,7 @@ void icpK3Witness(vf::Ctx & c)
 
 // ---------------------------------------------------------------------------------------------------------
 template<class PT>
-void runRansac(vf::Ctx & c, int n, double sigma, double outlierFraction, double motionScale, uint64_t seed, const char * tn, bool permuteTargets)
+void runRansac(vf::Ctx & c, int n, double sigma, double outlierFraction, double motionScale, uint64_t seed, const char * tn, bool permuteTargets, bool coherentOutliers = false)
 {
   constexpr int D = PointTraits<PT>::DIM;
   constexpr int SIZE = PointTraits<PT>::SIZE;
@@ -151,6 +160,15 @@ void runRansac(vf::Ctx & c, int n, double sigma, double outlierFraction, double 
   PointSet<PT> src, tgt;
   std::vector<Correspondence> corr;
   int nOut = static_cast<int>(std::floor(outlierFraction * n));
+  // coherent outliers: a second rigid body - all outliers share one extra displacement (> 10 sigma) and are even
+  // less noisy than the inliers
+  Eigen::Matrix<double, D, 1> commonShift;
+  {
+    Eigen::Matrix<double, D, 1> dir;
+    for (int d = 0; d < D; ++d) {dir[d] = rng.gauss();}
+    dir.normalize();
+    commonShift = rng.uniform(12.0, 50.0) * sigma * dir;
+  }
   for (int k = 0; k < n; ++k) {
     Eigen::Matrix<double, D, 1> p, q;
     for (int d = 0; d < D; ++d) {p[d] = rng.uniform(-10, 10);}
@@ -160,7 +178,12 @@ void runRansac(vf::Ctx & c, int n, double sigma, double outlierFraction, double 
       Eigen::Matrix<double, D, 1> dir;
       for (int d = 0; d < D; ++d) {dir[d] = rng.gauss();}
       dir.normalize();
-      q += rng.uniform(10.5, 50.0) * sigma * dir;   // gross outlier: more than 10 sigma away
+      if (coherentOutliers) {
+        q = R * p + t + commonShift;
+        for (int d = 0; d < D; ++d) {q[d] += 0.1 * sigma * rng.gauss() / std::sqrt(static_cast<double>(D));}
+      } else {
+        q += rng.uniform(10.5, 50.0) * sigma * dir;   // gross outlier: more than 10 sigma away
+      }
     }
     PT s, g;
     for (int d = 0; d < D; ++d) {s[d] = p[d]; g[d] = q[d];}
@@ -212,6 +235,8 @@ void ransacBody(vf::Ctx & c)
   uint64_t seed = c.s.seed("content_seed");
   bool permuted = c.s.flag("target_order_permuted");
   if (permuted) {c.label("target-set-stored-in-another-order");}
+  bool coherent = c.s.flag("outliers_form_a_second_rigid_body", 1, 4);
+  if (coherent && frac >= 0.05) {c.label("coherent-outliers(second-rigid-body)");}
   static const char * tn[] = {"Vector2d", "HomogeneousCoordinates2d", "Vector3d", "HomogeneousCoordinates3d"};
   c.label(tn[type]);
   if (frac >= 0.05) {c.label(">=5%-outliers");}
@@ -220,10 +245,10 @@ void ransacBody(vf::Ctx & c)
   c.nontrivial(frac >= 0.05);
   c.commit();
   switch (type) {
-    case 0: runRansac<Eigen::Vector2d>(c, n, sigma, frac, motion, seed, tn[0], permuted); break;
-    case 1: runRansac<HomogeneousCoordinates2d>(c, n, sigma, frac, motion, seed, tn[1], permuted); break;
-    case 2: runRansac<Eigen::Vector3d>(c, n, sigma, frac, motion, seed, tn[2], permuted); break;
-    default: runRansac<HomogeneousCoordinates3d>(c, n, sigma, frac, motion, seed, tn[3], permuted); break;
+    case 0: runRansac<Eigen::Vector2d>(c, n, sigma, frac, motion, seed, tn[0], permuted, coherent); break;
+    case 1: runRansac<HomogeneousCoordinates2d>(c, n, sigma, frac, motion, seed, tn[1], permuted, coherent); break;
+    case 2: runRansac<Eigen::Vector3d>(c, n, sigma, frac, motion, seed, tn[2], permuted, coherent); break;
+    default: runRansac<HomogeneousCoordinates3d>(c, n, sigma, frac, motion, seed, tn[3], permuted, coherent); break;
   }
 }
 
